@@ -1554,7 +1554,10 @@ Definition query_open (fi : nat) (rels : list rel) : MW nat :=
             | None => ret None
             end) ;;
   let qrels := match f_cache f with Some _ => rels | None => f_rels f ++ rels end in
-  let rare := if (f_unsafe f || is_nil (f_ids f))%bool then None else Some (rare_component s (f_ids f)) in
+  (* the hint is only computed for uncached queries; a cached query carries component 0
+     (it matters only for Count/EntityAt after the query was closed, when the entry is dropped) *)
+  let rare := if (f_unsafe f || is_nil (f_ids f))%bool then None
+              else match f_cache f with Some _ => Some 0 | None => Some (rare_component s (f_ids f)) end in
   b <- lockM ;;
   s <- get ;;
   let q := {| q_filter := fi; q_rels := qrels; q_cache := cache; q_lock := b; q_arch := 1; q_tab := 1;
